@@ -37,7 +37,11 @@ RecvRet(s, sc, e) ==
     IF e.res = "req"
     THEN IF e.c < 0 THEN [s |-> s1, v |-> <<>>]
          ELSE [ s |-> [s1 EXCEPT !.lastm[e.c + 1] = IF e.m > @ THEN e.m ELSE @],
-                v |-> V(sc.single => e.m > s.lastm[e.c + 1], "C07", "WireOrder") ]
+                \* a single receiver gets the requests of a connection in wire order: later than everything it got
+                \* before, and without stepping over an acceptable request it has not been given yet
+                v |-> V(sc.single => (/\ e.m > s.lastm[e.c + 1]
+                                      /\ \A k \in (s.lastm[e.c + 1] + 1)..(e.m - 1) : sc.conns[e.c + 1].msgs[k + 1].cls # "ok"),
+                        "C07", "WireOrder") ]
     ELSE
       LET \* A timed call that comes back empty-handed after its time is up has given up -- unless,
           \* on the virtual clock, nothing can have ended its wait at this instant except an unblock:
